@@ -116,11 +116,11 @@ def build_harness(log):
     with Lock(".cargo.lock"):
         # every feature on; if that does not build, the feature sets with one, then two … features dropped, in this order of
         # preference (each feature stands for something of /repo the harness touches beyond the public API)
-        allf = ["hook", "hookdata", "sendsync", "ocisrc"]
+        allf = ["hook", "hookdata", "sendsync", "ocisrc", "ociapp"]
         import itertools
         attempts = []
         for k in range(len(allf) + 1):
-            for drop in itertools.combinations(["hookdata", "ocisrc", "sendsync", "hook"], k):
+            for drop in itertools.combinations(["ociapp", "hookdata", "ocisrc", "sendsync", "hook"], k):
                 feats = [f for f in allf if f not in drop and not (f == "hookdata" and "hook" in drop)]
                 if (feats, "hook" in feats) not in attempts:
                     attempts.append((feats, "hook" in feats))
